@@ -160,7 +160,7 @@ pub fn run_c12(a: &Args) {
     // segment strings: runs in different scripts (Latin-1 letters whose bytes are lead bytes of the CJK codepages included) joined by
     // colour codes (^8 resets the codepage), carets, escaped characters and codepage letters: every sequence of up to 4 segments of
     // one pool, then random longer ones
-    let segs: Vec<&str> = vec!["\u{9348}", "\u{fa16}", "^9", "\u{15e}", "\u{45e}", "\u{b2}", "\u{ff12}", "\u{bd}", "\u{663}", "\u{7f8e}", "\u{e9}", "\u{e9}\u{e0}", "\u{448}", "^8", "^1", "^", "L", "J", "\u{ff8f}", "a", "|", "\u{3b1}", "\u{e9}\u{e0}\u{fc}", "\u{ff}\u{fe}", "\u{fe}\u{ff}", "\u{ef}\u{bb}\u{bf}", "\u{44f}\u{44e}", "\u{83}", "\u{8a}\u{9f}"];   // runs whose bytes look like a byte-order mark; C1 code points (characters of some codepages only)
+    let segs: Vec<&str> = vec!["\u{9348}", "\u{fa16}", "^9", "\u{15e}", "\u{45e}", "\u{b2}", "\u{ff12}", "\u{bd}", "\u{663}", "\u{7f8e}", "\u{e9}", "\u{e9}\u{e0}", "\u{448}", "^8", "^1", "^", "L", "J", "\u{ff8f}", "a", "|", "\u{3b1}", "\u{e9}\u{e0}\u{fc}", "\u{ff}\u{fe}", "\u{fe}\u{ff}", "\u{ef}\u{bb}\u{bf}", "\u{44f}\u{44e}", "\u{83}", "\u{8a}\u{9f}", "\u{101}\u{123}", "\u{2019}\u{201c}\u{201e}"];   // runs whose bytes look like a byte-order mark; C1 code points (characters of some codepages only); Baltic-only letters; typographic quotes (present in every single-byte codepage, at different bytes in ISO 8859 look-alikes)
     let smax = if a.thorough() { 4 } else { 3 };
     let mut sidx: Vec<usize> = vec![];
     loop {
@@ -298,7 +298,8 @@ pub fn run_c10(a: &Args) {
         if !back.contains('\u{fffd}') { out.case(&format!("tostring {}", hex(&b)), &cps(&back)); }
     }
     // BOM-looking text in every position
-    for s in ["ÿþA", "þÿA", "ï»¿abc", "xÿþA", "^Eÿþ", "ÿ", "þÿ"] { st.evaluations += 1; let (b, back) = oracle(s, &mut st); out.case(&format!("tobytes {}", cps(s)), &hex(&b)); out.case(&format!("tostring {}", hex(&b)), &cps(&back)); }
+    // ... and Latin-1 text whose bytes happen to be well-formed UTF-8 (what "é", "€", "ü" look like when read in the wrong charset)
+    for s in ["ÿþA", "þÿA", "ï»¿abc", "xÿþA", "^Eÿþ", "ÿ", "þÿ", "Ã©", "â‚¬", "Ã¼ber", "naÃ¯ve cafÃ©", "Â£5", "ï¿½", "ð\u{178}\u{2DC}\u{20AC}", "abc Ã\u{2030}"] { st.evaluations += 1; let (b, back) = oracle(s, &mut st); out.case(&format!("tobytes {}", cps(s)), &hex(&b)); out.case(&format!("tostring {}", hex(&b)), &cps(&back)); }
     // --- 4. decode side: every byte value after every marker, random bytes (totality; model compared on valid sequences)
     for l in MARKERS.chars() { for b in 0..=255u8 { for tail in [vec![], vec![b'a'], vec![0x5e, b'L'], vec![0x40]] {
         let mut v = vec![b'x', b'^', l as u8, b]; v.extend(&tail); st.evaluations += 1;
